@@ -135,6 +135,8 @@ class Interp:
         """z3 Bool for `bool(v)`"""
         if v.ty == "NoneT":
             return FALSE
+        if v.extra and v.extra[0] in ("emptydict", "emptylist", "emptyset") and v.term is None:
+            return FALSE
         base = strip_opt(v.ty)
         if base == "Bool":
             t = v.term
@@ -461,6 +463,12 @@ class Interp:
         fr = st.frame
         if fr.spec_env is not None and name in fr.spec_env:
             return fr.spec_env[name]
+        if name == "GHOST" and st.spec_depth > 0:
+            g = z3.Const("ghost_obj", RefS)
+            if not getattr(st, "_ghost_obj_init", False):
+                st._ghost_obj_init = True
+                st.assume(z3.And(g != NULL, st.alloc0[g], st.cls_is(g, "Ghost")))
+            return Val(("Ref", "Ghost"), g)
         if st.spec_depth > 0 and name in ("INF", "TRUE", "FALSE"):
             return {"INF": mkreal(INF), "TRUE": mkbool(True), "FALSE": mkbool(False)}[name]
         if name in self.db.specfuns and st.spec_depth > 0:
